@@ -286,6 +286,13 @@ func (g *GroupWorld) bootstrap() {
 		if g.cfg.BigGroup {
 			healthy = 3 // mostly leftovers of an earlier lifetime: large reap batches
 		}
+		if g.cfg.BigGroup && n > 21 && g.cfg.Idx%2 == 0 && k >= 2 {
+			// a whole fleet drained by the previous lifetime: every node but two carries an expired taint
+			stamp := now.Add(-g.cfg.Hard - time.Duration(60+s.Intn(600))*time.Second).Unix()
+			node.Spec.Taints = append(node.Spec.Taints, v1.Taint{Key: escTaint, Value: strconv.FormatInt(stamp, 10), Effect: v1.TaintEffectNoSchedule})
+			w.kube.putNode(node, g.name)
+			continue
+		}
 		switch s.Pick(healthy, 2+int(pr.PExtTaint*8), 1+int(pr.PCordon*4), 1+int(pr.PAnnotate*4), 1+int(pr.PForceTaint*4)) {
 		case 1:
 			stamp := now.Add(-time.Duration(s.Intn(int(g.cfg.Hard/time.Second)+120)) * time.Second).Unix()
